@@ -12,6 +12,8 @@ trait Elem: MaybeNan + Clone {
     fn missing() -> Self;
     fn guard() -> Self;
     fn key(&self) -> String;
+    /// whether the value is missing, decided WITHOUT the crate's MaybeNan::is_nan (independent oracle)
+    fn truly_missing(&self) -> bool;
 }
 macro_rules! elem_float { ($t:ty, $name:expr) => {
     impl Elem for $t {
@@ -20,6 +22,7 @@ macro_rules! elem_float { ($t:ty, $name:expr) => {
         fn missing() -> Self { <$t>::NAN }
         fn guard() -> Self { -777.0 }
         fn key(&self) -> String { format!("{:x}", self.to_bits()) }
+        fn truly_missing(&self) -> bool { self.to_bits() & !(1 << (std::mem::size_of::<$t>() * 8 - 1)) > <$t>::INFINITY.to_bits() }
     }
 }}
 elem_float!(f32, "f32");
@@ -31,6 +34,7 @@ macro_rules! elem_opt_int { ($t:ty, $name:expr) => {
         fn missing() -> Self { None }
         fn guard() -> Self { Some(77 as $t) }
         fn key(&self) -> String { format!("{:?}", self) }
+        fn truly_missing(&self) -> bool { matches!(self, None) }
     }
 }}
 elem_opt_int!(u8, "Option<u8>"); elem_opt_int!(u16, "Option<u16>"); elem_opt_int!(u32, "Option<u32>");
@@ -43,6 +47,7 @@ impl Elem for Option<N64> {
     fn missing() -> Self { None }
     fn guard() -> Self { Some(n64(-777.0)) }
     fn key(&self) -> String { format!("{:?}", self.map(|x| x.raw().to_bits())) }
+    fn truly_missing(&self) -> bool { matches!(self, None) }
 }
 impl Elem for Option<N32> {
     const NAME: &'static str = "Option<N32>";
@@ -50,6 +55,7 @@ impl Elem for Option<N32> {
     fn missing() -> Self { None }
     fn guard() -> Self { Some(n32(-777.0)) }
     fn key(&self) -> String { format!("{:?}", self.map(|x| x.raw().to_bits())) }
+    fn truly_missing(&self) -> bool { matches!(self, None) }
 }
 
 fn one_type<T: Elem>(cfg: &Cfg, rep: &mut Report, maxlen: usize)
@@ -91,7 +97,7 @@ where T::NotNan: Sized {
                         let addrs: Vec<usize> = (0..n).map(|k| (p0 as isize + k as isize * st * esz as isize) as usize).collect();
                         (n, addrs)
                     });
-                    let nonmissing: Vec<String> = { let mut v: Vec<String> = input.iter().filter(|e| !e.is_nan()).map(|e| e.key()).collect(); v.sort(); v };
+                    let nonmissing: Vec<String> = { let mut v: Vec<String> = input.iter().filter(|e| !e.truly_missing()).map(|e| e.key()).collect(); v.sort(); v };
                     match res {
                         Err(m) => rep.fail_p(cfg, &case, "C04,C14", "remove_nan_mut panicked", json!({"panic": m})),
                         Ok((n, addrs)) => {
@@ -105,7 +111,7 @@ where T::NotNan: Sized {
                             for a in &addrs {
                                 if in_addrs.contains(a) || (*a >= base && *a < base + PARENT * esz) {
                                     let e: &T = unsafe { &*(*a as *const T) };
-                                    if e.is_nan() { problems.push("a missing value is reachable through the not-NaN view".to_string()); }
+                                    if e.truly_missing() { problems.push("a missing value is reachable through the not-NaN view".to_string()); }
                                     got.push(e.key());
                                 }
                             }
